@@ -121,6 +121,11 @@ type sgen struct {
 	strDict []string // dictionaries of string fields
 	bytDict []string // dictionaries of bytes fields (never shared with strings: known defect)
 	feat    map[string]int
+	// mandatoryBack: a struct field that refers back to a struct of lower or equal rank may stay
+	// NON-optional when the cycle it closes holds an optional / array / oneof / multimap edge
+	// elsewhere (a cycle that closes back through a shared struct: the shape on which "walk every
+	// type once" recursion analyses go wrong). Off for the evolver, which must not touch A's fields.
+	mandatoryBack bool
 }
 
 var prims = []string{"bool", "int64", "uint64", "float64", "string", "bytes"}
@@ -216,7 +221,7 @@ func (g *sgen) fieldType(owner *gDef, position string) (t gType, optional bool) 
 		if d := g.s.def(t.Ref); d != nil && d.Kind == "struct" && !t.Array && owner != nil {
 			// inline struct containment must be acyclic: a non-optional struct field may only
 			// refer to a struct of higher rank; anything else becomes optional (recursion).
-			if d.rank <= owner.rank {
+			if d.rank <= owner.rank && !(g.mandatoryBack && g.r.Chance(1, 3)) {
 				optional = true
 			}
 		}
@@ -249,7 +254,7 @@ func (g *sgen) classify(owner *gDef, f gField) {
 // wild: the shapes stefc refuses (see sanitize) are NOT removed, and with some probability one
 // more refused shape is planted: such a schema is expected to be refused by the compiler.
 func genSchema(r *rng.R, pkg string, wild bool) (*gSchema, map[string]int) {
-	g := &sgen{r: r, s: &gSchema{Pkg: pkg}, feat: map[string]int{}, wild: wild}
+	g := &sgen{r: r, s: &gSchema{Pkg: pkg}, feat: map[string]int{}, wild: wild, mandatoryBack: true}
 	nRoots := 1
 	switch x := r.Intn(10); {
 	case x >= 8:
@@ -354,7 +359,11 @@ func genSchema(r *rng.R, pkg string, wild bool) (*gSchema, map[string]int) {
 			}
 		}
 	}
+	if r.Chance(1, 4) {
+		g.plantSharedCycle()
+	}
 	g.ensureReferenced()
+	g.breakMandatoryCycles()
 	g.assignDictStructs()
 	sanitize(g.s, nil, g.feat, wild)
 	if wild {
@@ -727,4 +736,93 @@ func (g *sgen) recursionFeatures() {
 			}
 		}
 	}
+}
+
+// breakMandatoryCycles: a struct must not contain itself through non-optional plain struct fields
+// only (stefc refuses that: it could never be initialised). Back references that were left
+// mandatory (mandatoryBack) and close such a cycle become optional; the others stay and are
+// counted (feature mandatory-back-edge).
+func (g *sgen) breakMandatoryCycles() {
+	mand := func(d *gDef) []*gField {
+		var out []*gField
+		if d == nil || d.Kind != "struct" {
+			return nil
+		}
+		for i := range d.Fields {
+			f := &d.Fields[i]
+			if x := g.s.def(f.Ty.Ref); x != nil && x.Kind == "struct" && !f.Ty.Array && !f.Optional {
+				out = append(out, f)
+			}
+		}
+		return out
+	}
+	var reaches func(from, to string, seen map[string]bool) bool
+	reaches = func(from, to string, seen map[string]bool) bool {
+		if from == to {
+			return true
+		}
+		if seen[from] {
+			return false
+		}
+		seen[from] = true
+		for _, f := range mand(g.s.def(from)) {
+			if reaches(f.Ty.Ref, to, seen) {
+				return true
+			}
+		}
+		return false
+	}
+	for _, d := range g.s.Defs {
+		for _, f := range mand(d) {
+			x := g.s.def(f.Ty.Ref)
+			if x.rank > d.rank {
+				continue
+			}
+			if reaches(x.Name, d.Name, map[string]bool{}) {
+				f.Optional = true
+			} else {
+				g.feat["mandatory-back-edge"]++
+			}
+		}
+	}
+}
+
+// plantSharedCycle adds a recursion cycle that closes back to an ancestor through a struct shared
+// by two paths: P -> A -> S -> P and P -> B -> S -> P with P's fields optional (or arrays), the
+// others mandatory, B on the second path only. Needs three plain structs after P.
+func (g *sgen) plantSharedCycle() {
+	var st []*gDef
+	for _, d := range g.s.Defs {
+		if d.Kind == "struct" && !d.leaf {
+			st = append(st, d)
+		}
+	}
+	if len(st) < 4 {
+		return
+	}
+	pi := g.r.Intn(len(st) - 3)
+	rest := st[pi+1:]
+	// three distinct later structs in rank order: a < b < sh
+	i := g.r.Intn(len(rest) - 2)
+	j := i + 1 + g.r.Intn(len(rest)-i-2)
+	k := j + 1 + g.r.Intn(len(rest)-j-1)
+	p, a, b, sh := st[pi], rest[i], rest[j], rest[k]
+	addField := func(d *gDef, t gType, opt bool) {
+		f := gField{Name: fmt.Sprintf("F%d", len(d.Fields)+1), Ty: t, Optional: opt}
+		d.Fields = append(d.Fields, f)
+		g.classify(d, f)
+	}
+	for _, x := range []*gDef{a, b} {
+		t := gType{Ref: x.Name}
+		if g.r.Chance(1, 4) {
+			t.Array = true
+			addField(p, t, false)
+		} else {
+			addField(p, t, true)
+		}
+	}
+	addField(a, gType{Ref: sh.Name}, false)
+	addField(b, gType{Ref: sh.Name}, false)
+	addField(sh, gType{Ref: p.Name}, false)
+	g.feat["planted-shared-cycle"]++
 }
